@@ -182,6 +182,43 @@ def correspondence(ctx):
                 be = gs.standard_bins((blat, blon), latlon=True, geo_scale=R)
                 add(dict(op="ll_std_bins", R=f1(R), lat=fbits(blat), lon=fbits(blon)), "standard_bins-latlon",
                     [len(be) - 1, be.tolist()], 1e-12, R, dict(R=R, lat=blat.tolist(), lon=blon.tolist()))
+            # --- kriging assembly: covariance block of the matrix and right-hand side handed to the kernel
+            import gstools.krige.base as KB
+            ktemp = bool(rng.rand() < 0.5)
+            kvar, klen = float(np.round(rng.uniform(0.5, 3), 3)), float(np.round(rng.uniform(0.1, 2.0), 3)) * R
+            km = gs.Exponential(latlon=True, temporal=ktemp, geo_scale=R, var=kvar, len_scale=klen,
+                                anis=np.round(rng.uniform(0.2, 4.0, 3 if ktemp else 2), 3))
+            nk = int(rng.randint(1, 6))
+            klat, klon = gen_latlon(rng, nk)
+            kt = np.round(rng.uniform(-30, 30, nk), 3)
+            qlat, qlon = gen_latlon(rng, 3)
+            qt = np.round(rng.uniform(-30, 30, 3), 3)
+            if rng.rand() < 0.3:
+                qlat[0], qlon[0], qt[0] = klat[0], klon[0] + 360.0, kt[0]      # a target on a datum, one turn away
+            capk = {}
+            orig_c = KB.calc_field_krige_and_variance_c
+
+            def spy_k(mat, vecs, cond, num_threads=None):
+                capk["vecs"] = np.array(vecs, copy=True)
+                return orig_c(mat, vecs, cond, num_threads)
+
+            def pinv_k(mat):
+                capk["mat"] = np.array(mat, copy=True)
+                return np.linalg.pinv(mat)
+            KB.calc_field_krige_and_variance_c = spy_k
+            try:
+                cpos = (klat, klon, kt) if ktemp else (klat, klon)
+                qpos = (qlat, qlon, qt) if ktemp else (qlat, qlon)
+                kk = gs.krige.Simple(km, cpos, np.arange(nk, dtype=float), pseudo_inv_type=pinv_k)
+                kk(qpos)
+            finally:
+                KB.calc_field_krige_and_variance_c = orig_c
+            if "vecs" in capk and "mat" in capk:
+                add(dict(op="ll_krige", R=f1(km.geo_scale), temporal=ktemp, anis=fbits(km.anis), var=f1(km.var), len=f1(km.len_scale),
+                         lat=fbits(klat), lon=fbits(klon), t=fbits(kt), tlat=fbits(qlat), tlon=fbits(qlon), tt=fbits(qt)),
+                    "krige-assembly" + ("-temporal" if ktemp else ""), [capk["mat"][:nk, :nk], capk["vecs"][:nk, :]], 1e-12, kvar,
+                    dict(geo_scale=R, temporal=ktemp, anis=km.anis.tolist(), var=kvar, len_scale=klen,
+                         cond=[list(map(float, c)) for c in cpos], target=[list(map(float, c)) for c in qpos]))
             # --- fit_variogram: lags handed to curve_fit
             from gstools.covmodel import fit as FIT
             xs = np.sort(np.round(rng.uniform(0, np.pi * R, 6), 6))
@@ -214,6 +251,11 @@ def correspondence(ctx):
             lean = [r[0], r[1], dec(r[2]).tolist(), dec(r[3]).tolist()]
             ok = lean[0] == real[0] and lean[1] == real[1] and lean[2] == real[2] and \
                 np.array_equal(np.asarray(lean[3]) + 0.0, np.asarray(real[3]) + 0.0)
+        elif kind.startswith("krige-assembly"):
+            lean = [dec(r[0]), dec(r[1])]
+            ok = close(lean[0], real[0], tol, scale) and close(lean[1], real[1], tol, scale)
+            lean = [lean[0].tolist(), lean[1].tolist()]
+            real = [real[0].tolist(), real[1].tolist()]
         elif kind == "standard_bins-latlon":
             lean = [r[0], dec(r[1]).tolist()]
             ok = lean[0] == real[0] and close(lean[1], real[1], tol, scale)
@@ -447,6 +489,35 @@ def search(ctx, deep=False):
                 if not (len(be) == wn + 1 and np.allclose(be, np.linspace(0, wmax, wn + 1), rtol=1e-10, atol=1e-10 * R) and be[-1] <= np.pi * R / 3 * (1 + 1e-12)):
                     report("standard_bins:latlon", "standard_bins(latlon=True) differs from linspace(0, great-circle(box diameter)/3, sturges+1)",
                            dict(geo_scale=R, lat=vlat.tolist(), lon=vlon.tolist()), got=be.tolist())
+            # ---------- S11: Krige(fit_variogram=True) on lat-lon data = vario_estimate(latlon, geo_scale) + fit_variogram(sill=var(data))
+            if t % 6 == 0 and nv >= 8:
+                try:
+                    fm1 = gs.Exponential(latlon=True, geo_scale=R, len_scale=0.5 * R)
+                    gs.krige.Ordinary(fm1, (vlat, vlon), fld, fit_variogram=True)
+                    fm2 = gs.Exponential(latlon=True, geo_scale=R, len_scale=0.5 * R)
+                    bcm, gmm = gs.vario_estimate((vlat, vlon), fld - 0.0, latlon=True, geo_scale=R)
+                    fm2.fit_variogram(bcm, gmm, sill=np.var(fld))
+                    ev += 1
+                    if not (np.isclose(fm1.len_scale, fm2.len_scale, rtol=1e-8) and np.isclose(fm1.var, fm2.var, rtol=1e-8)
+                            and np.isclose(fm1.nugget, fm2.nugget, rtol=1e-8, atol=1e-12) and bcm[-1] <= np.pi * R / 3 * (1 + 1e-12)):
+                        report("krige:fit_variogram-latlon", "Krige(fit_variogram=True) on lat-lon data differs from vario_estimate(latlon=True, geo_scale) + fit_variogram",
+                               dict(geo_scale=R, lat=vlat.tolist(), lon=vlon.tolist(), field=fld.tolist()),
+                               got=[fm1.len_scale, fm1.var, fm1.nugget], want=[fm2.len_scale, fm2.var, fm2.nugget])
+                except (RuntimeError, ValueError):
+                    pass
+            # ---------- S12: structured lat-lon grid = the same points unstructured
+            if t % 6 == 3:
+                ga, go = np.sort(rng.uniform(-90, 90, 3)), np.sort(rng.uniform(-400, 400, 4))
+                seed = int(rng.randint(1, 10 ** 6))
+                try:
+                    g1 = gs.SRF(m, seed=seed, mode_no=32)((ga, go), mesh_type="structured")
+                    A, O = np.meshgrid(ga, go, indexing="ij")
+                    g2 = gs.SRF(m, seed=seed, mode_no=32)((A.ravel(), O.ravel())).reshape(A.shape)
+                    ev += 1
+                    if not np.allclose(g1, g2, atol=1e-10 * np.sqrt(var) * (1 + R / ls)):
+                        report("srf:latlon-structured", "structured lat-lon grid differs from the same points given unstructured", case)
+                except Exception as ex:
+                    report("srf:latlon-structured-exception", f"{type(ex).__name__}: {ex}", case)
             # ---------- S8: fit_variogram of a lat-lon model recovers a Yadrenko variogram
             if t % 5 == 0:
                 xs = np.linspace(0, min(3 * ls, np.pi * R), 30)[1:]
